@@ -198,17 +198,18 @@ type keptValue struct {
 }
 
 type inv struct {
-	kept  *[]keptValue
-	r     *Runner
-	t     *rapid.T
-	id    int
-	top   int       // id of the enclosing property-function invocation
-	ctxs  *[]ctxRef // every context obtained in this invocation (shared with sub-scripts)
-	g     int       // goroutine tag (0 = the goroutine running the property)
-	grp   int       // > 0 inside the goroutines of one "go" op: what they register concurrently has no defined order among itself
-	quiet bool      // do not record the steps of this script (ungated race-detector runs)
-	vars  map[string]any
-	last  string
+	kept    *[]keptValue
+	r       *Runner
+	t       *rapid.T
+	id      int
+	top     int             // id of the enclosing property-function invocation
+	ctxs    *[]ctxRef       // every context obtained in this invocation (shared with sub-scripts)
+	g       int             // goroutine tag (0 = the goroutine running the property)
+	grp     int             // > 0 inside the goroutines of one "go" op: what they register concurrently has no defined order among itself
+	quiet   bool            // do not record the steps of this script (ungated race-detector runs)
+	lastCtx context.Context // what this goroutine's last polling "ctx" op was handed
+	vars    map[string]any
+	last    string
 }
 
 func (r *Runner) ctxID(c context.Context) int {
@@ -530,6 +531,12 @@ func (in *inv) step(op *Op) {
 		runtime.Goexit()
 	case "ctx":
 		c := t.Context()
+		if op.Val == "changes" { // a goroutine polling Context(): record only when it is handed another one than last time
+			if c == in.lastCtx {
+				break
+			}
+			in.lastCtx = c
+		}
 		in.noteCtx(c)
 		f := F{"inv": in.id, "id": r.ctxID(c), "err": ctxErr(c), "where": op.Text, "g": in.g}
 		if op.Var != "" && in.g == 0 {
